@@ -906,11 +906,14 @@ func (w *vfXWorld) flipRange(f vfXFile, cls string) (int, int) {
 		case "link":
 			return sub(he.LinkKey)
 		case "cid":
-			if len(he.MetadataHeadsCids) > 0 {
-				return sub(he.MetadataHeadsCids[0])
-			}
-			if len(he.MessagesHeadsCids) > 0 {
-				return sub(he.MessagesHeadsCids[0])
+			// the digest part of a head identifier (it stays a well-formed CID, of an entry nobody has)
+			for _, set := range [][][]byte{he.MetadataHeadsCids, he.MessagesHeadsCids} {
+				if len(set) > 0 && len(set[0]) > 32 {
+					lo, hi := sub(set[0])
+					if hi > lo {
+						return hi - 32, hi
+					}
+				}
 			}
 			return 0, 0
 		}
